@@ -155,6 +155,15 @@ CLAIMS = {
         'leave the source identical when nothing changed and keep text and comments of untouched top-level statements. One defect found (1 -> True not reconciled) was repaired in /repo.',
    note='Trusted: Coq kernel/vm_compute; hand model Reconcile.v tied by correspondence of put counts on edits that do not move slice elements; ast.unparse/parse round trip as the definition of a valid edited tree; CPython parser. No axioms.',
    design='DESIGN.md section 4 C13'),
+ 'C15': dict(
+   technique='Coq proof: the on=enter walk loop over a heap of AST objects / FST handles against an adversary that supplies ANY well-formed heap after each yield subject to `legal` (existing objects keep parent and handle, new ones are fresh): invariant => no handle yielded twice, only attached nodes yielded, exactly the then-current children scheduled; correspondence on observed heaps (yields + WF/legal evaluated); mutation-during-walk oracle',
+   text='Proved (closed): for every number of steps, every legal chain of heaps and every send pattern no FST handle is yielded twice; a handle is yielded only for an object attached at that moment; '
+        'detached objects are dropped silently, filtered ones not yielded but expanded; after the yield exactly the children of the handle\'s current AST are scheduled. Partial: termination, '
+        'leave/both/scope variants, search/sub consumers, legality of real replace/remove (evaluated on every observed heap) and the final C01 are decided by the oracle: random walks with replace/remove '
+        'of the current node, ancestors and siblings and send(), checking no raise, bounded steps, attached-and-reachable yields, no double entry, new children next, final re-parse. One defect '
+        '(scope walk of comprehensions used stale nodes) was repaired in /repo.',
+   note='Trusted: Coq kernel/vm_compute; hand model WalkMut.v tied by correspondence on heaps observed from the real objects (children order from astutil.syntax_ordered_children, checked in C14); CPython parser. No axioms.',
+   design='DESIGN.md section 4 C15'),
 }
 
 checks = []
